@@ -140,9 +140,11 @@ class ComplexStep(ApproximationScheme):
             # Turn off complex step.
             system._set_complex_step_mode(False)
 
-        system._inputs.set_val(saved_inputs)
-        system._outputs.set_val(saved_outputs)
-        system._residuals.set_val(saved_resids)
+            # Restore the vectors on every exit, including an exception raised by a perturbed
+            # evaluation.
+            system._inputs.set_val(saved_inputs)
+            system._outputs.set_val(saved_outputs)
+            system._residuals.set_val(saved_resids)
 
     def _get_multiplier(self, delta):
         """
